@@ -79,7 +79,9 @@ pub fn encode_predicate(
 
 /// The size of the encoded predicate.
 pub fn predicate_encoded_size(predicate: &Predicate) -> usize {
-    predicate.nodes.len() * NODE_SIZE_BYTES + predicate.edges.len() * EDGE_SIZE_BYTES + 2
+    predicate.nodes.len() * NODE_SIZE_BYTES
+        + predicate.edges.len() * EDGE_SIZE_BYTES
+        + 2 * LEN_SIZE_BYTES
 }
 
 /// Decode a predicate from bytes.
